@@ -32,6 +32,12 @@ def record(tw, rng, n_chains, stats):
                 m1, m2 = m1 * sc_, m2 * sc_
             mix = gen.synthetic_mixture(rng, "S", comps=(gen.synthetic_component(rng, "S1", mass=m1),
                                                          gen.synthetic_component(rng, "S2", mass=m2)))
+        if u >= 0.4 and rng.random() < 0.2:
+            # the mixture is EDITED after construction (a component replaced, a molar mass corrected): conversions follow what it holds now
+            if rng.random() < 0.5:
+                mix.first_component.molecular_weight = float(mix.first_component.molecular_weight) * rng.uniform(0.3, 3.0)
+            else:
+                mix.second_component = gen.synthetic_component(rng, "S3", mass=float(mix.second_component.molecular_weight) * rng.uniform(0.3, 3.0))
         M1, M2 = float(mix.first_component.molecular_weight), float(mix.second_component.molecular_weight)
         t0 = gen.tstr(rng, rng.choice(["weight", "molar"]))
         mode = rng.random()
@@ -87,7 +93,16 @@ def record(tw, rng, n_chains, stats):
         outside.append(-gen.logu(rng, 1e-15, 1e3))
         outside.append(1.0 + gen.logu(rng, 1e-15, 1e3))
         inside.append(rng.random())
-    for p in outside + inside:
+    import decimal
+    import fractions
+    import numpy
+    # the same table with the number given as another numeric type (what arrives from numpy, from a csv cell, from exact arithmetic)
+    typed = []
+    for p in (2, -1, 100, 0, 1):
+        typed += [p, numpy.int64(p), numpy.float32(p), fractions.Fraction(p), decimal.Decimal(p)]
+    typed += [numpy.float32(1.5), numpy.float16(-0.25), numpy.float64(1.0000000000000002), fractions.Fraction(3, 2), decimal.Decimal("1.5"),
+              numpy.float32(0.5), fractions.Fraction(1, 2)]
+    for p in outside + inside + typed:
         for ty in ("weight", "molar"):
             try:
                 pv.Composition(p=p, type=ty)
@@ -96,5 +111,5 @@ def record(tw, rng, n_chains, stats):
             except Exception as e:  # noqa: BLE001
                 raised = True
                 exc = type(e).__name__
-            tw.add([{"ev": "Construct", "p": F(p), "type": ty, "raised": raised, "exc": exc}])
+            tw.add([{"ev": "Construct", "p": F(float(p)), "type": ty, "raised": raised, "exc": exc, "ptype": type(p).__name__}])
             stats["constructs"] = stats.get("constructs", 0) + 1
